@@ -248,8 +248,11 @@ func (s *Sim) spawn(parent *Task, name string, f func()) *Task {
 		defer func() {
 			if r := recover(); r != nil {
 				if _, ok := r.(abortSentinel); !ok {
+					// format first: the value's Error/String method may be instrumented code
+					// that parks, which needs s.mu
+					info := PanicInfo{Task: t.ID, Name: t.Name, Value: safeSprint(r), Stack: trimStack(string(debug.Stack())), Site: t.site}
 					s.mu.Lock()
-					s.res.Panics = append(s.res.Panics, PanicInfo{Task: t.ID, Name: t.Name, Value: fmt.Sprint(r), Stack: trimStack(string(debug.Stack())), Site: t.site})
+					s.res.Panics = append(s.res.Panics, info)
 					s.mu.Unlock()
 				}
 			}
@@ -263,6 +266,15 @@ func (s *Sim) spawn(parent *Task, name string, f func()) *Task {
 		f()
 	}()
 	return t
+}
+
+func safeSprint(v interface{}) (out string) {
+	defer func() {
+		if p := recover(); p != nil {
+			out = fmt.Sprintf("%T (its formatting panicked)", v)
+		}
+	}()
+	return fmt.Sprint(v)
 }
 
 func trimStack(st string) string {
@@ -871,4 +883,28 @@ func Elem[T any](ch <-chan T, v interface{}) T {
 		return z
 	}
 	return v.(T)
+}
+
+// WaitQuiescent parks the calling task until no other task is runnable (everybody else is
+// blocked, waiting for a timer, or finished): "by quiescence" clauses are judged after it.
+func WaitQuiescent() {
+	s := active()
+	if s == nil {
+		return
+	}
+	t := s.cur
+	for i := 0; i < 100000; i++ {
+		s.park(t, whyYield) // a full controller cycle: woken tasks have reached their park by now
+		others := 0
+		s.mu.Lock()
+		for _, o := range s.tasks {
+			if o != t && o.state == stRunnable {
+				others++
+			}
+		}
+		s.mu.Unlock()
+		if others == 0 {
+			return
+		}
+	}
 }
